@@ -106,6 +106,7 @@ def check_deadline():
 class Explorer:
     def __init__(self, fuel=20000, max_paths=None, fp_feasibility=False, assumptions=()):
         self.solver = z3.Solver()
+        self.solver.set("timeout", 20000)
         self.decisions = []   # [choice, n_alternatives_left]  choice is an int index
         self.pos = 0
         self.pc = []
